@@ -190,7 +190,11 @@ def proxyObs (c : PCase) : Sx :=
       | .error => "closed"
       | .hang => "timeout"
       | .upgraded _ _ => if early then "closed" else "open"
-    let exit := if c.mode == "bridge2" then "0" else match o.status with
+    -- bridge2: the outer pump's status.  When the inner bridge stops by itself (error) the pump ends with 0
+    -- or, if it was still writing pipelined requests into the inner bridge's stdin, with a broken pipe (1):
+    -- a race the harness folds into one token, as in the pump modes
+    let innerStopped := match o.status with | .error => !early | _ => false
+    let exit := if c.mode == "bridge2" then (if innerStopped then "closed-by-service" else "0") else match o.status with
       | .eof => "0"
       | .error => "1"
       | .hang => "timeout"
